@@ -121,6 +121,28 @@ theorem lookupLast_mem {fs : List (String × Json)} {k : String} {v : Json} (h :
   · cases h1
   · exact h1
 
+theorem lookupLast_key {fs : List (String × Json)} {k : String} {v : Json} (h : Json.lookupLast fs k = some v) :
+    ∃ kv ∈ fs, kv.1 = k := by
+  unfold Json.lookupLast at h
+  have key : ∀ (l : List (String × Json)) (acc : Option Json),
+      l.foldl (fun acc (kv : String × Json) => if kv.1 == k then some kv.2 else acc) acc = some v →
+      (acc = some v ∨ ∃ kv ∈ l, kv.1 = k) := by
+    intro l
+    induction l with
+    | nil => intro acc h; exact Or.inl h
+    | cons x xs ih =>
+      intro acc h
+      simp only [List.foldl_cons] at h
+      rcases ih _ h with h1 | ⟨kv, hm, hv⟩
+      · split at h1
+        · rename_i hk
+          right; exact ⟨x, List.mem_cons_self, by simpa using hk⟩
+        · exact Or.inl h1
+      · right; exact ⟨kv, List.mem_cons_of_mem _ hm, hv⟩
+  rcases key fs none h with h1 | h1
+  · cases h1
+  · exact h1
+
 /-- All values below a field list are free of nulls in arrays. -/
 def FieldsNIA (fs : List (String × Json)) : Prop := ∀ kv ∈ fs, kv.2.nullInArray = false
 
@@ -376,47 +398,40 @@ theorem decWrapper_noPanic (π : OneofOrder) (j : Json) (hj : j.nullInArray = fa
   intro fs hfs
   have hF : FieldsNIA fs := asObject_NIA hj (toRes_ok hfs)
   obtain ⟨hv1, _⟩ := takeField_NIA hF Gen.orbiterPrefix Gen.orbiterPrefix
-  rcases hq1 : takeField fs Gen.orbiterPrefix Gen.orbiterPrefix with ⟨o, fs1⟩
-  rw [hq1] at hv1
-  simp only at hv1 ⊢
-  have tail : ∀ p : RawPayload, Res.NoPanic (do
-      (noUnknown fs1).toRes
-      Res.allM (fun (a : Option Action) => match a with
-        | some { attrs := some at_, .. } => if !at_.isAction then (.err "unpack:not-action-attributes" : Res Unit) else pure ()
-        | _ => pure ()) p.preActions
-      match p.forwarding with
-      | some { attrs := some at_, .. } => if !at_.isForwarding then (.err "unpack:not-forwarding-attributes" : Res Unit) else pure ()
-      | _ => pure ()
-      pure p) := by
-    intro p
+  refine Res.PanicsIn.bind (P := fun _ => False) ?_ ?_
+  · unfold decOrbiterValue
+    cases ho : (takeField fs Gen.orbiterPrefix Gen.orbiterPrefix).1 with
+    | none => exact Res.PanicsIn.err _
+    | some v =>
+      have := hv1 v ho
+      cases v with
+      | null => exact Res.PanicsIn.err _
+      | bool b => exact decPayload_noPanic π _ this
+      | num r => exact decPayload_noPanic π _ this
+      | str s p => exact decPayload_noPanic π _ this
+      | arr i => exact decPayload_noPanic π _ this
+      | obj f => exact decPayload_noPanic π _ this
+  · intro p _
     refine Res.PanicsIn.bind (P := fun _ => False) (Res.PanicsIn.toRes _) ?_
     intro _ _
+    unfold unpackInterfaces
     refine Res.PanicsIn.bind (P := fun _ => False) ?_ ?_
     · apply Res.PanicsIn.allM
       intro a _
+      unfold checkActionFamily
       split
       · split
         · exact Res.PanicsIn.err _
-        · exact Res.PanicsIn.pure _
-      · exact Res.PanicsIn.pure _
+        · exact Res.PanicsIn.ok _
+      · exact Res.PanicsIn.ok _
     · intro _ _
-      simp only
+      refine Res.PanicsIn.bind (P := fun _ => False) ?_ (fun _ _ => Res.PanicsIn.pure _)
+      unfold checkForwardingFamily
       split
       · split
-        · simp only [Res.bind_err]; exact Res.PanicsIn.err _
-        · exact Res.PanicsIn.pure _
-      · exact Res.PanicsIn.pure _
-  cases o with
-  | none => simp only [Res.bind_err]; exact Res.PanicsIn.err _
-  | some v =>
-    have := hv1 v rfl
-    cases v with
-    | null => simp only [Res.bind_err]; exact Res.PanicsIn.err _
-    | bool b => simp only; exact Res.PanicsIn.bind (decPayload_noPanic π _ this) (fun p _ => tail p)
-    | num r => simp only; exact Res.PanicsIn.bind (decPayload_noPanic π _ this) (fun p _ => tail p)
-    | str s p => simp only; exact Res.PanicsIn.bind (decPayload_noPanic π _ this) (fun p _ => tail p)
-    | arr i => simp only; exact Res.PanicsIn.bind (decPayload_noPanic π _ this) (fun p _ => tail p)
-    | obj f => simp only; exact Res.PanicsIn.bind (decPayload_noPanic π _ this) (fun p _ => tail p)
+        · exact Res.PanicsIn.err _
+        · exact Res.PanicsIn.ok _
+      · exact Res.PanicsIn.ok _
 
 /-! ### validators: nests of `if`/`match` over `ok` and `err` -/
 
